@@ -30,7 +30,7 @@ def _const_policy():
 
 
 # sequence-valued interpreted functions are enabled per property once its harness copes with them
-_SEQ_ON = {"C01"}
+_SEQ_ON = {"C01", "C03", "C04", "C06", "C13"}
 
 
 def _seq_policy():
